@@ -162,9 +162,54 @@ def family(case) -> tuple[dict, str, str]:
     raise core.HarnessError(edge)
 
 
+def eval_scaling(case) -> Verdict:
+    """Parse prefix + unit*n + suffix for doubling n; CPU time must not grow faster than quadratically.
+
+    Time spent inside the C regular-expression engine is invisible to the step counter, so this one relation is
+    time-based: process CPU time (not wall clock), a ratio between two sizes (not an absolute deadline), only
+    judged once a single parse costs a full second, and only failing on a growth factor above 5 per doubling
+    (linear = 2, quadratic = 4).
+    """
+    v = Verdict()
+    env = envs.make_env({"mode": case.get("mode", "strict"), "extra": True, "twice": False, "flags": FLAGS, "template_comments": True})
+    prev = None
+    n = 50
+    while n <= 3200:
+        src = case["prefix"] + case["unit"] * n + case["suffix"]
+        t0 = time.process_time()
+        o = oc.outcome_of(lambda: env.from_string(src))  # noqa: B023
+        t = time.process_time() - t0
+        if o[0] == "crash":
+            v.fail(f"parse:crash:{o[1]}", f"{o[1]} at {o[2]} for {src[:80]!r}... ({len(src)} characters)")
+            break
+        if t >= 1.0:
+            if prev is not None and prev > 0 and t / prev > 5.0:
+                v.fail(
+                    "parse:superquadratic-time",
+                    f"parsing {case['prefix']!r} + {case['unit']!r}*n + {case['suffix']!r}: {prev:.3f} s CPU for n={n // 2}, {t:.3f} s for n={n} "
+                    f"(x{t / prev:.1f} per doubling; linear is 2, quadratic 4)",
+                )
+            else:
+                v.labels.append("inconclusive:slow-but-not-superquadratic")
+            break
+        prev = t
+        n *= 2
+    v.nontrivial = True
+    v.labels.append("scaling")
+    v.key = ["scaling", case["prefix"], case["unit"], case["suffix"], case.get("mode")]
+    return v
+
+
+SCALE_PREFIXES = ["{%", "{%-", "{{", "{{-", "{% if", "{% if a", "{% assign x =", "{{ a", "{{ a |", "{#", "{% raw %}", "{% comment %}", "{% liquid", "{% liquid\n", "x", "{% #", "{% for i in a"]
+SCALE_UNITS = [" ", "\n", "\t", " \n", "\r\n", "-", "a", "a ", "%", "{", "}", "|", " |", ",", ", ", "(", "'", ".", "a.", "[", "#", "\u2028"]
+SCALE_SUFFIXES = ["", "x", "%", "}", "{%", "{{", "-", " %", "#"]
+
+
 def evaluate(case) -> Verdict:
     v = Verdict()
     kind = case["kind"]
+    if kind == "scaling":
+        return eval_scaling(case)
     if kind == "parse":
         src = case["src"]
         env = envs.make_env({"mode": case.get("mode", "strict"), "extra": True, "twice": False, "flags": FLAGS})
@@ -363,6 +408,13 @@ def _campaign(ctx: core.Ctx, tier: str, shard: int, nshards: int) -> None:
         if i % nshards == shard:
             ctx.run({"kind": "parse", "src": src, "mode": "strict" if i % 2 else "lax"})
     sequences(ctx, shard, nshards, 2 if quick else 3)
+    i = 0
+    for prefix in SCALE_PREFIXES:
+        for unit in SCALE_UNITS:
+            for suffix in SCALE_SUFFIXES if not quick else SCALE_SUFFIXES[:: 3 if (len(prefix) + len(unit) + ctx.seed) % 2 else 2]:
+                i += 1
+                if i % nshards == shard:
+                    ctx.run({"kind": "scaling", "prefix": prefix, "unit": unit, "suffix": suffix, "mode": "strict" if i % 2 else "lax"}, enumerated=True)
     for i, case in enumerate(families(tier, ctx.seed)):
         if i % nshards == shard:
             ctx.run(case, enumerated=True)
@@ -397,7 +449,9 @@ def _finish_kwargs(ctx: core.Ctx, tier: str) -> dict:
             "(a) parse: every prefix of generated sources (<= 400 chars), every sequence of up to " + ("2" if tier == "quick" else "3") + f" of {len(VOCAB)} block/branch/end tags, "
             "random block skeletons with branch tags of any kind anywhere and missing or swapped end tags, mutated sources, token soup and pumped sources "
             f"(each of {len(PUMP_FRAGMENTS)} lexeme fragments repeated up to {'5' if tier == 'quick' else '20'} KB, bare and inside a "
-            "block) must finish with a template or a LiquidError within 20000 + 1500*len line events of liquid/ code. "
+            "block) must finish with a template or a LiquidError within 20000 + 1500*len line events of liquid/ code; "
+            f"scaling families prefix + unit*n + suffix ({len(SCALE_PREFIXES)} prefixes x {len(SCALE_UNITS)} units x suffixes, n doubling "
+            "from 50 to 3200) must not show CPU time growing more than 5-fold per doubling once a parse takes a second. "
             "(b) render: families of 1-3 mutually recursive templates - edge in {include, render, render-for, "
             "include-for, dynamic include, extends (cycle 1-3), macro call, block.super} placed under d nested blocks "
             "(" + ("two of d in {0,1,5,10,15,20,29} per (edge, kind), rotating with the seed" if tier == "quick" else "every d in 0..30") + ") of 8 block kinds and a mixed nest, strict and lax - must finish within 3e6 line "
@@ -408,7 +462,9 @@ def _finish_kwargs(ctx: core.Ctx, tier: str) -> dict:
         "exhaustive": tier == "thorough",
         "assumptions": [
             "termination is observed as 'within budget', not proved; budgets are deterministic line counts",
-            "CPU time above 20 s per parse is only labelled inconclusive (regex time in C is invisible to tracing)",
+            "CPU time above 20 s per parse is only labelled inconclusive (regex time in C is invisible to tracing); the "
+            "scaling relation is the one time-based oracle: process CPU time, growth ratio between two sizes, judged "
+            "only from one second per parse upwards",
         ],
     }
 
